@@ -4,6 +4,8 @@ From Coq Require Import List ZArith Reals Lra Lia Bool.
 From Coquelicot Require Import Coquelicot.
 From Interval Require Import Tactic.
 Require Import PP.Expr PP.RealOps PP.PolyFacts PP.ExpTail PP.Gen.Kernels PP.Proofs.QuarticForm.
+From Flocq Require Import Core BinarySingleNaN.
+Require Import PP.FloatModel PP.FloatOps PP.FloatFacts PP.ErrorBound PP.SafeDec PP.Proofs.QuarticFloat.
 Import ListNotations.
 Local Open Scope R_scope.
 
@@ -52,3 +54,58 @@ Proof.
   assert (E := C10_form_series k c1 c2 c3 c4 u 1). cbv zeta in E. rewrite ln_1 in E.
   replace (- 0) with 0 in E by ring. rewrite E by lra. ring.
 Qed.
+
+(* ---- binary64, series branch (partial towards C10_accuracy: relative to the COMPUTED logarithm) ----
+   For ANY libm (ln_f, exp_f arbitrary functions), all finite (k, c1..c4, u) and v: let x^ = -(ln_f v) be the argument the
+   implementation computes.  Whenever the implementation's own test  thr_lo < x^ < thr_hi  selects the series and no
+   operation of the series term under/overflows (`safe`, decidable: lib/SafeDec.v), the value returned by the regenerated
+   IntOfLogPoly4::evaluate differs from the exact form  k + v*sum c_j x^^j + u*v*(e^x^ - sum_{j<5} x^^j/j!)  AT x^ by at most
+   64 * 2^-53 times the sum of the magnitudes of the terms, plus the truncation 1e-14*|u|*|v| of the 16-term series.
+   (What is NOT proved: the step from x^ to -ln v, i.e. the accuracy of the platform's ln; and the closed-form branch, which
+   calls exp.  Those stay with the 1400-bit oracle.) *)
+Definition quartic_at (k c1 c2 c3 c4 u v x : R) : R :=
+  k + v * (c1 * x + c2 * x ^ 2 + c3 * x ^ 3 + c4 * x ^ 4) + u * v * (exp x - T4 x).
+
+Theorem C10_series_accuracy_float : forall (ln_f exp_f : F -> F) (k c1 c2 c3 c4 u v : F),
+  let xh := fneg (ln_f v) in
+  let env := [k; c1; c2; c3; c4; u; v; xh] in
+  flt (of_bits 13833752011390226268) xh && flt xh (of_bits 4610425010531724165) = true ->
+  safe env e_series ->
+  Rabs (B2R (eval (FOpsG ln_f exp_f) [k; c1; c2; c3; c4; u; v] e_Q4)
+        - quartic_at (B2R k) (B2R c1) (B2R c2) (B2R c3) (B2R c4) (B2R u) (B2R v) (B2R xh))
+  <= 4 * INR 16 * FloatFacts.u * series_mag (B2R k) (B2R c1) (B2R c2) (B2R c3) (B2R c4) (B2R u) (B2R v) (B2R xh)
+     + 1e-14 * (Rabs (B2R u) * Rabs (B2R v)).
+Proof.
+  intros ln_f exp_f k c1 c2 c3 c4 u v xh env Hc Hs.
+  destruct (series_branch_float ln_f exp_f k c1 c2 c3 c4 u v Hc Hs) as [E B]. fold xh env in E, B. rewrite E.
+  (* the window, over the reals *)
+  assert (Fx : is_finite xh = true).
+  { apply andb_true_iff in Hc. destruct Hc as [H1 H2]. unfold flt in *. destruct xh as [s|s| |s m e Hb]; try reflexivity.
+    - destruct s; cbn in H1, H2; discriminate.
+    - cbn in H1. discriminate. }
+  apply andb_true_iff in Hc. destruct Hc as [H1 H2]. unfold flt in H1, H2.
+  rewrite Bltb_correct in H1, H2 by (exact Fx || reflexivity).
+  destruct (Rlt_bool_spec (B2R (of_bits 13833752011390226268)) (B2R xh)) as [H1'|]; [|discriminate].
+  destruct (Rlt_bool_spec (B2R xh) (B2R (of_bits 4610425010531724165))) as [H2'|]; [|discriminate].
+  clear H1 H2. rename H1' into H1. rename H2' into H2.
+  fold (litR 13833752011390226268) in H1. fold (litR 4610425010531724165) in H2. fold thr_lo in H1. fold thr_hi in H2.
+  destruct C10_thr_values as [[L1 L2] [U1 U2]].
+  assert (W : -1.72 <= B2R xh <= 1.7200000000001) by lra.
+  assert (T := C10_trunc (B2R xh) W).
+  set (X := B2R xh) in *.
+  replace (B2R (fev env e_series) - quartic_at (B2R k) (B2R c1) (B2R c2) (B2R c3) (B2R c4) (B2R u) (B2R v) X)
+    with ((B2R (fev env e_series) - series_form (B2R k) (B2R c1) (B2R c2) (B2R c3) (B2R c4) (B2R u) (B2R v) X)
+          + - (B2R u * B2R v * (exp X - T20 X))) by (unfold series_form, quartic_at, T20; ring).
+  eapply Rle_trans; [apply Rabs_triang|]. apply Rplus_le_compat; [exact B|].
+  rewrite Rabs_Ropp, !Rabs_mult.
+  assert (0 <= Rabs (B2R u) * Rabs (B2R v)) by (apply Rmult_le_pos; apply Rabs_pos). nra.
+Qed.
+
+(* non-vacuity: k=0.5, c=(1.5,-2,0.25,3), u=-7, v=1.25 with ln_f 1.25 := 0.22314355131420976 (the correctly rounded value):
+   the series is selected and `safe` holds *)
+Example C10_series_hypotheses_hold :
+  let xh := fneg (of_bits 4597207614006925858) in
+  let env := [of_bits 4602678819172646912; of_bits 4609434218613702656; of_bits 13835058055282163712; of_bits 4598175219545276416;
+              of_bits 4613937818241073152; of_bits 13842939354630062080; of_bits 4608308318706860032; xh] in
+  flt (of_bits 13833752011390226268) xh && flt xh (of_bits 4610425010531724165) = true /\ safe env e_series.
+Proof. cbv zeta. split; [vm_compute; reflexivity|apply safeb_sound; vm_compute; reflexivity]. Qed.
